@@ -1,9 +1,13 @@
 (* Extraction of the executable models for the correspondence check.
    ExtrOcamlBasic only (bool, option, list, prod, unit, sumbool -> OCaml's own);
-   N, Z, nat, positive stay the extracted inductive types. *)
+   N, Z, nat, positive stay the extracted inductive types.  One .ml per Coq module,
+   written to coq/Extract/out (coqc runs from coq/). *)
 Require Extraction.
 Require ExtrOcamlBasic.
-From Mila Require Model.TextMap.
+From Mila Require Model.TextMap Model.Localize.
 Extraction Language OCaml.
-Extraction "Extract/model.ml"
-  Mila.Model.TextMap.tm_step Mila.Model.TextMap.tm_new Mila.Model.TextMap.tm_get.
+Cd "Extract/out".
+Separate Extraction
+  Mila.Model.TextMap.tm_step Mila.Model.TextMap.tm_new Mila.Model.TextMap.tm_get
+  Mila.Model.Localize.localize.
+Cd "../..".
